@@ -75,13 +75,35 @@ const c17Body = "<p>alpha beta gamma delta epsilon zeta eta theta iota kappa lam
 // above the article body; set per enumeration cell.
 var c17Lead = ""
 
+// c17LinkText renders the content of a numbered link: the bare number, or the number preceded by a
+// label that is not displayed (the accessible-name idiom: what is rendered is still the number).
+var c17LinkForm = "plain"
+
+func c17LinkText(i int) string {
+	switch c17LinkForm {
+	case "hidden-attr-label":
+		return "<span hidden>Go to page </span>" + strconv.Itoa(i)
+	case "display-none-label":
+		return `<span style="display:none">Go to page </span>` + strconv.Itoa(i)
+	}
+	return strconv.Itoa(i)
+}
+
+// c17Outer is an element around the pager's container (prev/next loop): `<div id="footer">` and the like.
+var c17Outer = ""
+
 // c17ContainerAttr is the attribute text of the pager's container (set by the prev/next loop).
 var c17ContainerAttr = ` class="pager"`
 
 var c17PrettyContainer = []struct {
 	pretty bool
 	cattr  string
-}{{false, ` class="pager"`}, {true, ` class="pager"`}, {false, ``}, {true, ``}, {false, ` id="nav-links"`}, {true, ` id="nav-links"`}}
+	outer  string
+}{{false, ` class="pager"`, ""}, {true, ` class="pager"`, ""}, {false, ``, ""}, {true, ``, ""}, {false, ` id="nav-links"`, ""}, {true, ` id="nav-links"`, ""},
+	// a neutral element around the container. Containers named footer, sidebar, tools … are NOT enumerated:
+	// the prev/next scoring lowers the score of links below such names by design (with one such container
+	// the path-middle-num family is already not returned on the pinned tree), see DESIGN §6.2.
+	{false, ` class="pager"`, ` class="wrap"`}}
 
 func renderPager(fam urlFamily, n, k int, wrapper, current, sep, label, form string, numbered bool, pn *[2]string, pretty bool) string {
 	var items []string
@@ -119,7 +141,7 @@ func renderPager(fam urlFamily, n, k int, wrapper, current, sep, label, form str
 				}
 				items = append(items, wrap(cur))
 			} else {
-				items = append(items, wrap(`<a href="`+htmlEsc(hrefForm(fam.link(i), form))+`">`+strconv.Itoa(i)+`</a>`))
+				items = append(items, wrap(`<a href="`+htmlEsc(hrefForm(fam.link(i), form))+`">`+c17LinkText(i)+`</a>`))
 			}
 		}
 	}
@@ -136,7 +158,7 @@ func renderPager(fam urlFamily, n, k int, wrapper, current, sep, label, form str
 		inner = strings.Join(items, sep)
 	}
 	return "<html><head><title>Some story</title></head><body>\n" + c17Body + c17Lead + c17Body +
-		`<div` + c17ContainerAttr + `>` + label + inner + "</div>\n</body></html>"
+		map[bool]string{true: "<div" + c17Outer + ">"}[c17Outer != ""] + `<div` + c17ContainerAttr + `>` + label + inner + "</div>" + map[bool]string{true: "</div>"}[c17Outer != ""] + "\n</body></html>"
 }
 
 func htmlEsc(s string) string { return strings.ReplaceAll(s, "&", "&amp;") }
@@ -234,6 +256,40 @@ func TestC17(t *testing.T) {
 			}
 		}
 	}
+	// numbered links with a label that is not displayed (sub-product: no list label, absolute hrefs)
+	for _, linkForm := range []string{"hidden-attr-label", "display-none-label"} {
+		for _, wrapper := range c17Wrappers {
+			for _, current := range c17Current {
+				for _, sep := range c17Seps {
+					markup++
+					if !thorough && int(mixIndex(markup)%24) != ((seed%24)+24)%24 {
+						continue
+					}
+					for _, fam := range c17Families {
+						for n := 2; n <= 12; n++ {
+							for k := 1; k <= n; k++ {
+								ex := c17Extra{AssertNext: true, AssertPrev: true,
+									Cell: fmt.Sprintf("family=%s N=%d k=%d wrapper=%s current=%s sep=%q links=%s", fam.name, n, k, wrapper, current, sep, linkForm)}
+								if k < n {
+									ex.Next = normPagerURL(fam.link(k + 1))
+								}
+								if k > 1 {
+									ex.Prev = normPagerURL(fam.link(k - 1))
+								}
+								c17Lead = ""
+								c17LinkForm = linkForm
+								page := renderPager(fam, n, k, wrapper, current, sep, "", "abs", true, nil, false)
+								c17LinkForm = "plain"
+								c := &Case{Property: "C17", Kind: "page-number", HTML: page, Opts: OptSpec{URL: fam.link(k), Algo: 1}}
+								c.SetExtra(ex)
+								run(c, "page-number-hidden-label:"+fam.name)
+							}
+						}
+					}
+				}
+			}
+		}
+	}
 	// prev/next algorithm
 	variant := 0
 	for _, fam := range c17Families {
@@ -251,7 +307,7 @@ func TestC17(t *testing.T) {
 									}
 									pn := c17PNLabels[li]
 									ex := c17Extra{AssertNext: k < n, AssertPrev: k > 1,
-										Cell: fmt.Sprintf("family=%s N=%d k=%d numbered=%v labels=%v href=%s wrapper=%s pretty=%v container=%q", fam.name, n, k, numbered, pn, form, wrapper, pretty, cattr)}
+										Cell: fmt.Sprintf("family=%s N=%d k=%d numbered=%v labels=%v href=%s wrapper=%s pretty=%v container=%q", fam.name, n, k, numbered, pn, form, wrapper, pretty, cattr+pc.outer)}
 									if k < n {
 										ex.Next = normPagerURL(fam.link(k + 1))
 									}
@@ -259,9 +315,9 @@ func TestC17(t *testing.T) {
 										ex.Prev = normPagerURL(fam.link(k - 1))
 									}
 									c17Lead = ""
-									c17ContainerAttr = cattr
+									c17ContainerAttr, c17Outer = cattr, pc.outer
 									page := renderPager(fam, n, k, wrapper, "strong", " ", "", form, numbered, &pn, pretty)
-									c17ContainerAttr = ` class="pager"`
+									c17ContainerAttr, c17Outer = ` class="pager"`, ""
 									c := &Case{Property: "C17", Kind: "prev-next", HTML: page,
 										Opts: OptSpec{URL: fam.link(k), Algo: 0}}
 									c.SetExtra(ex)
